@@ -523,6 +523,12 @@ class Interp:
                 popped = Lin.sym(tops[1] if ar and ar > 1 else tops[0])
             else:
                 popped = arg[0] if arg and isinstance(arg[0], Lin) else None
+                if arg and isinstance(arg[0], tuple) and len(arg[0]) > 1:
+                    # element given as a tuple: component 1 is the step, component 0 its tag/storage
+                    popped = arg[0][1] if isinstance(arg[0][1], Lin) else None
+                    self.set_loc(f"popped({c}).0", arg[0][0], st)
+            if op == "pop" and ar and ar > 1:
+                self.set_loc(f"popped({c}).0", Lin.sym(tops[0]), st)
             if popped is not None:
                 st.assign(f"popped({c})", popped)
             else:
